@@ -35,7 +35,8 @@ CHECKS = [
              'pnpoly_fan + induction, for every strictly convex polygon with any number of vertices (true on the open polygon off the fan diagonals of one vertex, false outside), '
              'in particular for the ideal vertices of RegularPolygonPixelRegion for every n >= 3 (proved strictly convex over R: C01Regular); '
              'for EVERY vertex list in generic position the ray-casting implementation is proved equal to the fan parity (number of fan triangles containing the point mod 2, C01Fan), a direction-free definition of even-odd filling; '
-             'that the fan parity of a NON-convex simple polygon is its interior is the classical triangulation fact (Jordan curve), NOT a theorem here: decided by the differential run against an exact-rational crossing oracle.',
+             'for polygons star-shaped with respect to their first vertex (convex or not) the fan parity is proved to be membership in the union of the fan triangles = the polygon (C01Star); '
+             'that the fan parity of a GENERAL simple polygon is its interior is the classical triangulation fact (Jordan curve), NOT a theorem here: decided by the differential run against an exact-rational crossing oracle.',
      'note': 'Trusted: Lean kernel/Mathlib/3 std axioms; hand model Shapes.lean/Region.lean tied to the code by the correspondence run '
              '(exact rationals, boundary band 1e-9 excepted as C01 allows); np.cos/np.sin/np.hypot correct to a few ulp; the compiled pnpoly .so is what runs.'},
     {'property_id': 'C04',
